@@ -140,7 +140,14 @@ Definition mstep (tmo_ : Z) (retries_ : nat) (proc_ : Z) (s : mst) (e : tr) : ms
   (* an invalid packet from the peer is answered with one ERROR 0 *)
   | MErr0, TSend t a p =>
       if (a =? client)%N && pkt_eqb p (PError 0) && (t =? m_now s) then mset s MCloseF (m_now s)
-      else mfail s "C09:invalid_packet_error"
+      else match p with
+           | PError _ => mfail s "C09:invalid_packet_error"
+           | _ =>
+               (* the invalid datagram was taken for an acknowledgement (or for a reason to send again) *)
+               if (a =? client)%N then
+                 if pkt_eqb p (m_out s) then mfail s "C02:resend_only_on_timeout" else mfail s "C02:lockstep"
+               else mfail s "C09:invalid_packet_error"
+           end
   | MErr0, _ => mfail s "C09:invalid_packet_error"
   (* a peer ERROR ends the transfer silently *)
   | MSilent, TCloseFile => mset s MCloseS (m_now s)
